@@ -40,6 +40,7 @@ def _case(draw):
     case["tower"] = draw(gen.tower(case))
     case["bg"] = draw(st.sampled_from([0.0, 1.5, -2.0, 400.0]))
     case["precision"] = draw(st.sampled_from(["double", "double", "double", "single"]))
+    case["mp_array"] = draw(st.booleans())  # tower coordinates handed over as a NumPy array instead of a tuple
     return case
 
 
@@ -66,7 +67,9 @@ def check_case(case):
     if case["prof"]["kind"] == "closure":
         out.label("closure=" + case["prof"]["closure"])
 
-    _, cfp, ffp = sut.S(q0, z, prof, dom, lv, meas_pt=mp, footprint=True, **common)
+    # (sut.S also verifies that no array argument is modified in place)
+    mp_arg = np.array(mp, dtype=float) if case.get("mp_array") else mp
+    _, cfp, ffp = sut.S(q0, z, prof, dom, lv, meas_pt=mp_arg, footprint=True, **common)
     _, cfw, ffw = sut.S(q0, z, prof, dom, lv, meas_pt=(0.0, 0.0), srf_bg_conc=case["bg"], footprint=False, **common)
     cfp, ffp, cfw, ffw = (sut.as3d(a) for a in (cfp, ffp, cfw, ffw))
     if ffp.shape != ffw.shape or ffp.shape[1:] != q0.shape:
